@@ -57,8 +57,9 @@ def intact_prefix(data: bytes):
 
 # ---- selector -------------------------------------------------------------------------------------
 def risky_with_missing(expr: str) -> bool:
-    """Operators whose result on a *missing* field operand is a known finding of C08 for at least one engine:
-    'not in', '!=', and 'in' with a right operand that is not a list/tuple display."""
+    """Operators whose result on a *missing* field operand is not the 'False' of C08 for at least one engine (known
+    findings of C08, or identity tests, which the sentinel object cannot overload): 'not in', '!=', 'is', 'is not', and
+    'in' with a right operand that is not a list/tuple display."""
     try:
         tree = ast.parse(expr, mode="eval")
     except SyntaxError:
@@ -66,7 +67,7 @@ def risky_with_missing(expr: str) -> bool:
     for n in ast.walk(tree):
         if isinstance(n, ast.Compare):
             for op, right in zip(n.ops, n.comparators):
-                if isinstance(op, (ast.NotIn, ast.NotEq)):
+                if isinstance(op, (ast.NotIn, ast.NotEq, ast.Is, ast.IsNot)):
                     return True
                 if isinstance(op, ast.In) and not isinstance(right, (ast.List, ast.Tuple)):
                     return True
